@@ -16,9 +16,9 @@ func init() {
 			"(records-accumulate) the per-node mapping records used by compile's duplicate-target check accumulate over all predecessors; " +
 			"(duplicate-gate) compile's duplicate-target check blocks success; " +
 			"(reflect-zero) in field_mapping.go no possibly-nil reflect.Type / zero reflect.Value is used unguarded (run-time type problems are errors, not panics); " +
-			"(declared-type) takeOne reports the value and the DECLARED type of the very field/map element it extracted; " +
+			"(checker-capture) handlers created per mapping do not capture loop-shared variables; (declared-type) takeOne reports the value and the DECLARED type of the very field/map element it extracted; " +
 			"(runtime-checker-installed) a checker returned by validateFieldMapping is installed on the same edge; mapping handlers have both value and stream forms.",
-		decided:    []string{"insert-only", "records-accumulate", "duplicate-gate", "reflect-zero", "declared-type", "runtime-checker-installed"},
+		decided:    []string{"insert-only", "records-accumulate", "duplicate-gate", "reflect-zero", "checker-capture", "declared-type", "runtime-checker-installed"},
 		notDecided: []string{"that extraction/assignment computes the right value for every type shape", "that predecessor outputs are never mutated through reflect", "nil *struct intermediates on a source path (listed as observation)"},
 		run:        runC15,
 	})
@@ -197,6 +197,19 @@ func runC15(w *World, r *Report) {
 			}
 		}
 		r.Check(nCheckers >= 2 && nCheckers == nGuarded, "C15.reflect-zero", "validateFieldMapping run-time checkers agree on the nil case", vfm.Pos(), fmt.Sprintf("%d checkers, all test reflect.TypeOf(a) == nil", nCheckers), fmt.Sprintf("%d of %d run-time checkers handle a nil value (one sibling dereferences a nil reflect.Type)", nGuarded, nCheckers))
+	}
+
+	// ---- checker-capture
+	r.Rule("C15.checker-capture", "mapping handlers / run-time checkers created in a loop capture only per-iteration variables", 1)
+	{
+		nl := 0
+		for _, fn := range append(fmFns, w.Fn("compose", "graph.updateToValidateMap")) {
+			nl += len(fn.AnonFuncs)
+			for _, c := range loopVarCaptures(fn) {
+				r.Fail("C15.checker-capture", w.fname(origin(fn))+": "+c, fn.Pos(), "a handler created per mapping captures a variable shared by all iterations: at run time every handler works with the last mapping's value (valid inputs rejected / invalid ones accepted)")
+			}
+		}
+		r.OK("C15.checker-capture", "literals in field_mapping.go and updateToValidateMap", w.Fn("compose", "validateFieldMapping").Pos(), fmt.Sprintf("%d literals inspected", nl))
 	}
 
 	// ---- declared-type
